@@ -8,6 +8,7 @@ import Penguin.Model.Mux
 import Penguin.Model.Frame
 import Penguin.Lemmas.Link
 import Penguin.Lemmas.MuxStep
+import Penguin.Lemmas.PairCor
 
 namespace Penguin.C02
 open Penguin Penguin.Link
@@ -61,6 +62,55 @@ theorem no_crosstalk (e : EP) (fid : Nat) (d : Bytes) (ig : Bool) (j : Nat) (hj 
     intro f hf
     simp only [Msg.flow?, Frame.id, Option.some.injEq] at hf
     subst hf; exact hne)
+
+
+/-! ### The same for two whole endpoint models joined by FIFO wires (`Penguin.Pair`) -/
+
+open Penguin.Mux Penguin.Pair in
+/-- On every flow established on both endpoints, in every reachable state of the pair (every
+    interleaving, any number of concurrent flows, every pair of options): what `b`'s application has
+    read on the stream, what its handle buffers, what its queue holds and what is in flight add up, in
+    order, to exactly what `a`'s application wrote on the stream — so the bytes read are a prefix of
+    the bytes written, and bytes of other flows never appear (they are filtered out by flow id). -/
+theorem pair_bytes_conserved {oa ob : Opts} {ra rb : List Nat} (c : Cfg oa ob ra rb) (as : List (Pair.Side × Pair.Act))
+    {x i j : Nat} (e : Established (Pair.run (Pair.init oa ob ra rb) as) x i j) :
+    let p := Pair.run (Pair.init oa ob ra rb) as
+    ∃ oB, p.b.objs[j]? = some oB ∧
+      p.gb.rlog j ++ oB.buf ++ oB.rxq.flatten ++ (pushesOf x (pathAB p)).flatten = p.ga.wlog i ∧
+      p.gb.rlog j <+: p.ga.wlog i :=
+  established_bytes (reach_inv c as) e
+
+open Penguin.Mux Penguin.Pair in
+/-- … and in the direction `b → a`. -/
+theorem pair_bytes_conserved_rev {oa ob : Opts} {ra rb : List Nat} (c : Cfg oa ob ra rb) (as : List (Pair.Side × Pair.Act))
+    {x i j : Nat} (e : Established (Pair.run (Pair.init oa ob ra rb) as) x i j) :
+    let p := Pair.run (Pair.init oa ob ra rb) as
+    ∃ oA, p.a.objs[i]? = some oA ∧
+      p.ga.rlog i ++ oA.buf ++ oA.rxq.flatten ++ (pushesOf x (pathBA p)).flatten = p.gb.wlog j ∧
+      p.ga.rlog i <+: p.gb.wlog j :=
+  established_bytes (reach_inv c as).swap e.swap
+
+open Penguin.Mux Penguin.Pair in
+/-- No cross-talk at the level of the pair: on each endpoint exactly one stream object carries the
+    flow id of an established flow, so frames of the flow reach that object and no other. -/
+theorem pair_one_object_per_flow {oa ob : Opts} {ra rb : List Nat} (c : Cfg oa ob ra rb) (as : List (Pair.Side × Pair.Act))
+    {x i j : Nat} (e : Established (Pair.run (Pair.init oa ob ra rb) as) x i j) :
+    let p := Pair.run (Pair.init oa ob ra rb) as
+    (∀ k o, p.a.objs[k]? = some o → o.fid = x → k = i) ∧ (∀ k o, p.b.objs[k]? = some o → o.fid = x → k = j) := by
+  obtain ⟨_, _, _, _, _, _, _, _, _, _, h1, h2⟩ := established_dir (reach_inv c as) e
+  exact ⟨h1, h2⟩
+
+/-! Non-vacuity of the pair theorems: a concrete run (windows 2, threshold 1) that opens a stream,
+    writes three bytes, reads them in two reads, shuts down and reads end-of-stream. -/
+private def pcfg : Mux.Opts := { rwnd := 2, threshold := 1 }
+private def pacts : List (Pair.Side × Pair.Act) :=
+  [(.A, .open 1 [104] 80), (.A, .xmit), (.B, .recv), (.B, .xmit), (.A, .recv), (.A, .runDone), (.B, .accept),
+   (.A, .write 0 [1, 2, 3]), (.A, .xmit), (.B, .recv), (.B, .read 0 2), (.B, .read 0 9), (.B, .xmit), (.A, .recv),
+   (.A, .shutdown 0), (.A, .xmit), (.B, .recv), (.B, .read 0 9)]
+example : Pair.Cfg pcfg pcfg [7, 8] [9, 10] := ⟨by decide, by decide, by decide, by decide⟩
+example : Pair.Established (Pair.run (Pair.init pcfg pcfg [7, 8] [9, 10]) pacts) 7 0 0 :=
+  ⟨by decide, by decide, by decide, by decide⟩
+example : (Pair.run (Pair.init pcfg pcfg [7, 8] [9, 10]) pacts).gb.rlog 0 = [1, 2, 3] := by decide
 
 /-! Non-vacuity -/
 example : (run (init 2 2) [.write [1, 2, 3], .deliver, .read 2, .write [4], .deliver, .read 9, .read 9]).delivered
